@@ -160,10 +160,19 @@ def run_engine(ctx, prop, props_file, prefixes, seed_offset, what):
         for h in hs[:2]])
 
     # direct oracles on the implementation
+    def owns(h, o):
+        # a prefix is a string, or (string, predicate on the history): the oracle belongs to this property on those histories
+        for p in prefixes:
+            if isinstance(p, tuple):
+                if o.startswith(p[0]) and (p[1](h, o) if p[1].__code__.co_argcount == 2 else p[1](h)):
+                    return True
+            elif o.startswith(p):
+                return True
+        return False
     mine, others = [], []
     for h in hs:
         for o in h.get("oracles") or []:
-            (mine if any(o.startswith(p) for p in prefixes) else others).append((h, o))
+            (mine if owns(h, o) else others).append((h, o))
     for h, o in mine[:5]:
         ctx.violation("implementation violates %s: %s" % (prop, o),
                       {"oracle": o, "seed": h["seed"], "history_index": h["index"], "history": h["ops"],
